@@ -607,23 +607,17 @@ end closure
 
 /-! ### procedure bodies -/
 
-/-- the store after binding the rest parameter (if any) to the list of remaining arguments -/
-def bindRest (σ : Store) (ρ : Nat) (rest : Option String) (restArgs : List Value) : Store :=
-  match rest with
-  | some r => σ.define ρ r (Value.ofList restArgs)
-  | none => σ
-
 /-- one unfolding of `applyScheme`, with the rest-parameter step named -/
 theorem applyScheme_succ (n : Nat) (σ : Store) (lam : Lambda) (cenv : Nat) (args : List Value) :
     applyScheme (n+1) σ lam cenv args =
       match bindFixed (σ.newFrame (some cenv)).2 (σ.newFrame (some cenv)).1 lam.formals.fixed args with
       | (.error er, σ₁) => (.error (er, none), σ₁)
       | (.ok restArgs, σ₁) =>
-        match evalDefs n (bindRest σ₁ (σ.newFrame (some cenv)).1 lam.formals.rest restArgs)
+        match evalDefs n (Ref.bindRest σ₁ (σ.newFrame (some cenv)).1 lam.formals.rest restArgs)
             (σ.newFrame (some cenv)).1 lam.defs with
         | (.error er, σ₂) => (.error er, σ₂)
         | (.ok (), σ₂) => evalBody n σ₂ (σ.newFrame (some cenv)).1 lam.body := by
-  rw [applyScheme]; simp only [bindRest]
+  rw [applyScheme]; simp only [Ref.bindRest]
   generalize bindFixed _ _ _ _ = x
   obtain ⟨r, σ₁⟩ := x
   cases r with
@@ -636,7 +630,7 @@ theorem applyScheme_succ (n : Nat) (σ : Store) (lam : Lambda) (cenv : Nat) (arg
 /-- `apply_scheme_procedure`: new frame under the closure's frame, parameters, definitions, body -/
 theorem AppliesScheme.intro_ok {σ lam cenv args restArgs σ₁ σ₂ r σ'}
     (hb : bindFixed (σ.newFrame (some cenv)).2 (σ.newFrame (some cenv)).1 lam.formals.fixed args = (.ok restArgs, σ₁))
-    (hd : EvalsDefs (bindRest σ₁ (σ.newFrame (some cenv)).1 lam.formals.rest restArgs)
+    (hd : EvalsDefs (Ref.bindRest σ₁ (σ.newFrame (some cenv)).1 lam.formals.rest restArgs)
             (σ.newFrame (some cenv)).1 lam.defs (.ok ()) σ₂)
     (hbody : EvalsBody σ₂ (σ.newFrame (some cenv)).1 lam.body r σ') : AppliesScheme σ lam cenv args r σ' := by
   obtain ⟨_, N₁, h₁⟩ := hd.out; obtain ⟨hr, N₂, h₂⟩ := hbody.out
@@ -645,7 +639,7 @@ theorem AppliesScheme.intro_ok {σ lam cenv args restArgs σ₁ σ₂ r σ'}
     rw [applyScheme_succ]; simp only [hb, h₁ n (by omega)]; exact h₂ n (by omega)
 theorem AppliesScheme.defs_err {σ lam cenv args restArgs σ₁ er σ₂}
     (hb : bindFixed (σ.newFrame (some cenv)).2 (σ.newFrame (some cenv)).1 lam.formals.fixed args = (.ok restArgs, σ₁))
-    (hd : EvalsDefs (bindRest σ₁ (σ.newFrame (some cenv)).1 lam.formals.rest restArgs)
+    (hd : EvalsDefs (Ref.bindRest σ₁ (σ.newFrame (some cenv)).1 lam.formals.rest restArgs)
             (σ.newFrame (some cenv)).1 lam.defs (.error er) σ₂) :
     AppliesScheme σ lam cenv args (.error er) σ₂ := by
   obtain ⟨hr, N₁, h₁⟩ := hd.out
@@ -938,3 +932,849 @@ theorem parentsOlder_define {σ : Store} (h : Ref.ParentsOlder σ) (ρ : Nat) (k
   next => exact h i f p hf hfp
 
 end Ruschm.Eval
+
+namespace Ruschm
+open Prim Eval
+
+/-! ## `Store.erase`: the depth instrumentation is never read -/
+
+/-- a step followed by erasure -/
+def Res.eraseStore {α} (r : Res α) : Res α := (r.1, r.2.erase)
+
+@[simp] theorem Store.erase_vecs (σ : Store) : σ.erase.vecs = σ.vecs := rfl
+@[simp] theorem Store.erase_frames (σ : Store) : σ.erase.frames = σ.frames := rfl
+@[simp] theorem Store.erase_out (σ : Store) : σ.erase.out = σ.out := rfl
+@[simp] theorem Store.erase_ticks (σ : Store) : σ.erase.ticks = σ.ticks := rfl
+@[simp] theorem Store.erase_erase (σ : Store) : σ.erase.erase = σ.erase := rfl
+@[simp] theorem Store.erase_enter (σ : Store) : (enter σ).erase = σ.erase := rfl
+@[simp] theorem Store.erase_leave (σ : Store) : (leave σ).erase = σ.erase := rfl
+
+theorem Store.erase_define (σ : Store) (ρ k v) : (σ.define ρ k v).erase = σ.erase.define ρ k v := by
+  unfold Store.define
+  by_cases h : ρ < σ.frames.size
+  · simp [h, Store.erase]
+  · simp [h]
+
+theorem Store.lookupAux_congr {σ τ : Store} (h : σ.frames = τ.frames) (n ρ k) :
+    σ.lookupAux n ρ k = τ.lookupAux n ρ k := by
+  induction n generalizing ρ with
+  | zero => rfl
+  | succ n ih => simp only [Store.lookupAux, h, ih]
+
+@[simp] theorem Store.erase_lookup (σ : Store) (ρ k) : σ.erase.lookup ρ k = σ.lookup ρ k :=
+  Store.lookupAux_congr (σ := σ.erase) (τ := σ) rfl _ _ _
+
+theorem Store.resolveAux_congr {σ τ : Store} (h : σ.frames = τ.frames) (n ρ k) :
+    σ.resolveAux n ρ k = τ.resolveAux n ρ k := by
+  induction n generalizing ρ with
+  | zero => rfl
+  | succ n ih => simp only [Store.resolveAux, h, ih]
+
+theorem Store.erase_set (σ : Store) (ρ k v) : σ.erase.set ρ k v = ((σ.set ρ k v).1, (σ.set ρ k v).2.erase) := by
+  unfold Store.set Store.resolve
+  rw [Store.resolveAux_congr (σ := σ.erase) (τ := σ) rfl]
+  split
+  · simp [Store.erase_define]
+  · rfl
+
+theorem Store.erase_newFrame (σ : Store) (p) :
+    σ.erase.newFrame p = ((σ.newFrame p).1, (σ.newFrame p).2.erase) := rfl
+
+theorem Store.erase_allocVec (σ : Store) (m items) :
+    σ.erase.allocVec m items = ((σ.allocVec m items).1, (σ.allocVec m items).2.erase) := rfl
+
+theorem bindFixed_erase (σ : Store) (ρ fs as) :
+    bindFixed σ.erase ρ fs as = ((bindFixed σ ρ fs as).1, (bindFixed σ ρ fs as).2.erase) := by
+  induction fs generalizing σ as with
+  | nil => rfl
+  | cons f fs ih =>
+    cases as with
+    | nil => rfl
+    | cons a as => simp only [bindFixed]; rw [← ih, Store.erase_define]
+
+theorem bindRest_erase (σ : Store) (ρ rest ra) : (Ref.bindRest σ ρ rest ra).erase = Ref.bindRest σ.erase ρ rest ra := by
+  cases rest <;> simp [Ref.bindRest, Store.erase_define]
+
+mutual
+theorem readLiteral_erase : ∀ (d : Datum) (σ : Store), readLiteral σ.erase d = (readLiteral σ d).eraseStore
+  | .prim p l, σ => by rw [readLiteral, readLiteral]; cases evalPrim p <;> rfl
+  | .sym s l, σ => by rw [readLiteral, readLiteral]; rfl
+  | .nil l, σ => by rw [readLiteral, readLiteral]; rfl
+  | .pair a d l, σ => by
+    rw [readLiteral, readLiteral, readLiteral_erase a σ]
+    cases h : readLiteral σ a with
+    | mk r σ₁ =>
+      cases r with
+      | error e => rfl
+      | ok va =>
+        simp only [Res.eraseStore]
+        rw [readLiteral_erase d σ₁]
+        cases h2 : readLiteral σ₁ d with
+        | mk r2 σ₂ => cases r2 <;> rfl
+  | .vec xs l, σ => by
+    rw [readLiteral, readLiteral, readLiterals_erase xs σ]
+    cases h : readLiterals σ xs with
+    | mk r σ₁ => cases r <;> rfl
+theorem readLiterals_erase : ∀ (ds : List Datum) (σ : Store), readLiterals σ.erase ds = (readLiterals σ ds).eraseStore
+  | [], σ => by rw [readLiterals, readLiterals]; rfl
+  | x :: xs, σ => by
+    rw [readLiterals, readLiterals, readLiteral_erase x σ]
+    cases h : readLiteral σ x with
+    | mk r σ₁ =>
+      cases r with
+      | error e => rfl
+      | ok va =>
+        simp only [Res.eraseStore]
+        rw [readLiterals_erase xs σ₁]
+        cases h2 : readLiterals σ₁ xs with
+        | mk r2 σ₂ => cases r2 <;> rfl
+end
+
+
+theorem display_congr {σ τ : Store} (h : σ.vecs = τ.vecs) : ∀ n v, display σ n v = display τ n v ∧ displayTail σ n v = displayTail τ n v := by
+  intro n
+  induction n with
+  | zero => intro v; exact ⟨by unfold display; rfl, by unfold displayTail; rfl⟩
+  | succ n ih =>
+    intro v
+    have e1 : display σ n = display τ n := funext fun v => (ih v).1
+    have e2 : displayTail σ n = displayTail τ n := funext fun v => (ih v).2
+    constructor
+    · unfold display; rw [e1, e2, h]
+    · unfold displayTail; rw [e1, e2]
+
+theorem canon_congr {σ τ : Store} (h : σ.vecs = τ.vecs) : ∀ n v, canon σ n v = canon τ n v ∧ canonTail σ n v = canonTail τ n v := by
+  intro n
+  induction n with
+  | zero => intro v; exact ⟨by unfold canon; rfl, by unfold canonTail; rfl⟩
+  | succ n ih =>
+    intro v
+    have e1 : canon σ n = canon τ n := funext fun v => (ih v).1
+    have e2 : canonTail σ n = canonTail τ n := funext fun v => (ih v).2
+    constructor
+    · unfold canon; rw [e1, e2, h]
+    · unfold canonTail; rw [e1, e2]
+
+theorem lift_erase {α} (σ : Store) (r : Except Err α) (k : α → Value) : lift σ.erase r k = (lift σ r k).eraseStore := by
+  cases r <;> rfl
+theorem num1_erase (σ : Store) (args b f) : num1 σ.erase args b f = (num1 σ args b f).eraseStore := by
+  unfold num1; split
+  · split
+    · rfl
+    · split <;> rfl
+  · rfl
+theorem num2_erase (σ : Store) (args b f) : num2 σ.erase args b f = (num2 σ args b f).eraseStore := by
+  unfold num2; split
+  · split
+    · rfl
+    · split
+      · rfl
+      · split <;> rfl
+  · rfl
+
+theorem applyPure_erase (σ : Store) (b : Builtin) (args : List Value) :
+    applyPure σ.erase b args = (applyPure σ b args).eraseStore := by
+  have hd := fun n v => (display_congr (σ := σ.erase) (τ := σ) rfl n v).1
+  have hc := fun n v => (canon_congr (σ := σ.erase) (τ := σ) rfl n v).1
+  cases b
+  case display =>
+    simp only [applyPure]; split
+    · rw [hd]; rfl
+    · rfl
+  case tick =>
+    simp only [applyPure]; split
+    · rw [hc]; rfl
+    · rfl
+  all_goals simp only [applyPure, lift_erase, num1_erase, num2_erase, realFn, realFn2, Store.erase_vecs]
+  all_goals try rfl
+  all_goals (repeat' split)
+  all_goals try rfl
+  all_goals done
+
+end Ruschm
+
+namespace Ruschm.Ref
+open Prim Eval
+
+/-! ## Fuel monotonicity of the reference evaluator -/
+
+structure Mono (n : Nat) : Prop where
+  eval : ∀ {σ ρ e r σ'}, eval n σ ρ e = (r, σ') → NotFuel r → eval (n+1) σ ρ e = (r, σ')
+  list : ∀ {σ ρ es r σ'}, evalList n σ ρ es = (r, σ') → NotFuel r → evalList (n+1) σ ρ es = (r, σ')
+  apply : ∀ {σ p as r σ'}, apply n σ p as = (r, σ') → NotFuel r → apply (n+1) σ p as = (r, σ')
+  defs : ∀ {σ ρ ds r σ'}, evalDefs n σ ρ ds = (r, σ') → NotFuel r → evalDefs (n+1) σ ρ ds = (r, σ')
+  seq : ∀ {σ ρ es r σ'}, evalSeq n σ ρ es = (r, σ') → NotFuel r → evalSeq (n+1) σ ρ es = (r, σ')
+
+theorem mono_eval {n} (ih : Mono n) {σ ρ e r σ'} (h : eval (n+1) σ ρ e = (r, σ')) (hr : NotFuel r) :
+    eval (n+2) σ ρ e = (r, σ') := by
+  cases e with
+  | prim p l => rw [eval] at h ⊢; exact h
+  | datum d l => rw [eval] at h ⊢; exact h
+  | quote d l => rw [eval] at h ⊢; exact h
+  | lambda lam l => rw [eval] at h ⊢; exact h
+  | sym s l => rw [eval] at h ⊢; exact h
+  | assign name ve l =>
+    rw [eval] at h ⊢
+    split at h
+    next er σ1 heq => cases h; rw [ih.eval heq hr]
+    next v σ1 heq => rw [ih.eval heq (by simp)]; exact h
+  | cond t c a l =>
+    rw [eval] at h ⊢
+    split at h
+    next er σ1 heq => cases h; rw [ih.eval heq hr]
+    next v σ1 heq =>
+      rw [ih.eval heq (by simp)]; simp only
+      split at h
+      · rw [if_pos ‹_›]; exact ih.eval h hr
+      · rw [if_neg ‹_›]
+        split at h
+        · exact ih.eval h hr
+        · exact h
+  | call f args l =>
+    rw [eval] at h ⊢
+    split at h
+    next er σ1 heq => cases h; rw [ih.eval heq hr]
+    next v σ1 heq =>
+      rw [ih.eval heq (by simp)]; simp only
+      split at h
+      next rargs σ2 hargs =>
+        by_cases hfa : NotFuel rargs
+        · rw [ih.list hargs hfa]; simp only
+          split at h
+          · split at h
+            · exact h
+            · exact h
+          · split at h
+            · exact h
+            · exact ih.apply h hr
+        · exfalso
+          cases rargs with
+          | ok _ => simp at hfa
+          | error e =>
+            obtain ⟨e, l⟩ := e
+            cases e <;> simp [NotFuel, isFuel] at hfa
+            split at h <;> simp at h <;> cases h.1 <;> simp at hr
+
+theorem mono_list {n} (ih : Mono n) {σ ρ es r σ'} (h : evalList (n+1) σ ρ es = (r, σ')) (hr : NotFuel r) :
+    evalList (n+2) σ ρ es = (r, σ') := by
+  cases es with
+  | nil => rw [evalList] at h ⊢; exact h
+  | cons a as =>
+    rw [evalList] at h ⊢
+    split at h
+    next er σ1 heq => cases h; rw [ih.eval heq hr.cast]
+    next v σ1 heq =>
+      rw [ih.eval heq (by simp)]; simp only
+      split at h
+      next er σ2 heq2 => cases h; rw [ih.list heq2 hr]
+      next vs σ2 heq2 => rw [ih.list heq2 (by simp)]; exact h
+
+theorem mono_defs {n} (ih : Mono n) {σ ρ ds r σ'} (h : evalDefs (n+1) σ ρ ds = (r, σ'))
+    (hr : NotFuel r) : evalDefs (n+2) σ ρ ds = (r, σ') := by
+  cases ds with
+  | nil => rw [evalDefs] at h ⊢; exact h
+  | cons d ds =>
+    obtain ⟨name, e, l⟩ := d
+    rw [evalDefs] at h ⊢
+    split at h
+    next er σ1 heq => cases h; rw [ih.eval heq hr.cast]
+    next v σ1 heq => rw [ih.eval heq (by simp)]; exact ih.defs h hr
+
+theorem mono_seq {n} (ih : Mono n) {σ ρ es r σ'} (h : evalSeq (n+1) σ ρ es = (r, σ'))
+    (hr : NotFuel r) : evalSeq (n+2) σ ρ es = (r, σ') := by
+  match es with
+  | [] => rw [evalSeq] at h ⊢; exact h
+  | [last] => rw [evalSeq] at h ⊢; exact ih.eval h hr
+  | e :: e2 :: es =>
+    rw [evalSeq] at h ⊢
+    · split at h
+      next er σ1 heq => cases h; rw [ih.eval heq hr]
+      next v σ1 heq => rw [ih.eval heq (by simp)]; exact ih.seq h hr
+    all_goals simp
+
+theorem mono_apply {n} (ih : Mono n) {σ p as r σ'} (h : apply (n+1) σ p as = (r, σ'))
+    (hr : NotFuel r) : apply (n+2) σ p as = (r, σ') := by
+  unfold apply at h ⊢
+  split at h
+  · exact h
+  next fixed variadic hpa =>
+    split at h
+    · rw [if_pos ‹_›]; exact h
+    · rw [if_neg ‹_›]
+      split at h
+      · split at h
+        · exact h
+        next f args' hsp => exact ih.apply h hr
+      · exact h
+      · simp only at h ⊢
+        split at h
+        · exact h
+        · split at h
+          next er σ2 heq => cases h; rw [ih.defs heq hr.cast]
+          next σ2 heq => rw [ih.defs heq (by simp)]; exact ih.seq h hr
+      · exact h
+
+theorem mono_all : ∀ n, Mono n
+  | 0 => by
+    constructor <;> intro _ _ _ <;> intros <;> rename_i h hr <;>
+      simp only [eval, evalList, apply, evalDefs, evalSeq] at h <;>
+      cases h <;> simp at hr
+  | n+1 =>
+    have ih := mono_all n
+    ⟨mono_eval ih, mono_list ih, mono_apply ih, mono_defs ih, mono_seq ih⟩
+
+theorem eval_mono_le {n m σ ρ e r σ'} (h : eval n σ ρ e = (r, σ')) (hr : NotFuel r) (hnm : n ≤ m) :
+    eval m σ ρ e = (r, σ') :=
+  mono_le (f := fun n => eval n σ ρ e) (fun n _ _ h hr => (mono_all n).eval h hr) h hr hnm
+theorem evalList_mono_le {n m σ ρ es r σ'} (h : evalList n σ ρ es = (r, σ')) (hr : NotFuel r) (hnm : n ≤ m) :
+    evalList m σ ρ es = (r, σ') :=
+  mono_le (f := fun n => evalList n σ ρ es) (fun n _ _ h hr => (mono_all n).list h hr) h hr hnm
+theorem apply_mono_le {n m σ p as r σ'} (h : apply n σ p as = (r, σ')) (hr : NotFuel r) (hnm : n ≤ m) :
+    apply m σ p as = (r, σ') :=
+  mono_le (f := fun n => apply n σ p as) (fun n _ _ h hr => (mono_all n).apply h hr) h hr hnm
+theorem evalDefs_mono_le {n m σ ρ ds r σ'} (h : evalDefs n σ ρ ds = (r, σ')) (hr : NotFuel r) (hnm : n ≤ m) :
+    evalDefs m σ ρ ds = (r, σ') :=
+  mono_le (f := fun n => evalDefs n σ ρ ds) (fun n _ _ h hr => (mono_all n).defs h hr) h hr hnm
+theorem evalSeq_mono_le {n m σ ρ es r σ'} (h : evalSeq n σ ρ es = (r, σ')) (hr : NotFuel r) (hnm : n ≤ m) :
+    evalSeq m σ ρ es = (r, σ') :=
+  mono_le (f := fun n => evalSeq n σ ρ es) (fun n _ _ h hr => (mono_all n).seq h hr) h hr hnm
+
+/-! ## The model refines the reference -/
+
+theorem AgreeErr.refl (e : SErr) : AgreeErr e e := .inl rfl
+theorem Agree.refl {α} (r : Except SErr α) : Agree r r := by
+  cases r <;> simp [Agree, AgreeErr]
+theorem Agree.ok_iff {α} {a : α} {r' : Except SErr α} : Agree (.ok a) r' ↔ r' = .ok a := by
+  cases r' <;> simp [Agree, eq_comm]
+theorem Agree.error_iff {α} {e : SErr} {r' : Except SErr α} :
+    Agree (.error e) r' ↔ ∃ e', r' = .error e' ∧ AgreeErr e e' := by
+  cases r' <;> simp [Agree]
+theorem AgreeErr.notFuel {α β} {e e' : SErr} (h : AgreeErr e e') (hr : NotFuel (.error e : Except SErr α)) :
+    NotFuel (.error e' : Except SErr β) := by
+  rcases h with rfl | ⟨l, rfl⟩
+  · exact hr.cast
+  · exact .error_of (by simp)
+theorem Agree.notFuel {α} {r r' : Except SErr α} (h : Agree r r') (hr : NotFuel r) : NotFuel r' := by
+  cases r with
+  | ok a => rw [Agree.ok_iff.mp h]; simp
+  | error e => obtain ⟨e', rfl, he⟩ := Agree.error_iff.mp h; exact he.notFuel hr
+
+/-- the location of a call expression plays no role in the reference -/
+theorem eval_call_loc (m σ ρ f args l l') : eval m σ ρ (.call f args l) = eval m σ ρ (.call f args l') := by
+  cases m with
+  | zero => rw [eval, eval]
+  | succ m => rw [eval, eval]
+
+/-- What the outcome of a procedure body in the model (a value, an error, or a PENDING TAIL CALL)
+means for a direct-style run `run` of the same body: a value or an error is `run`'s outcome; a
+pending call `(f, args, env)` in store `σ₁` promises that whatever the reference makes of the call
+`(f args…)` in `env`, from `σ₁`, is `run`'s outcome. -/
+def TailOK (run : Nat → Res Value) (rt : Except SErr TailRes) (σ₁ : Store) : Prop :=
+  match rt with
+  | .error er => ∃ m er', run m = (.error er', σ₁.erase) ∧ AgreeErr er er'
+  | .ok (.value v) => ∃ m, run m = (.ok v, σ₁.erase)
+  | .ok (.tailCall f targs tenv) =>
+    ∀ m r σ₂, eval m σ₁.erase tenv (.call f targs none) = (r, σ₂) → NotFuel r → ∃ m', run m' = (r, σ₂)
+
+theorem TailOK.lift {inner outer : Nat → Res Value} {rt σ₁} (hnf : NotFuel rt)
+    (h : ∀ m r s, inner m = (r, s) → NotFuel r → ∃ m', outer m' = (r, s)) (ht : TailOK inner rt σ₁) :
+    TailOK outer rt σ₁ := by
+  cases rt with
+  | error er =>
+    obtain ⟨m, er', hm, ha⟩ := ht
+    obtain ⟨m', hm'⟩ := h m _ _ hm (ha.notFuel (α := TailRes) hnf)
+    exact ⟨m', er', hm', ha⟩
+  | ok t =>
+    cases t with
+    | value v =>
+      obtain ⟨m, hm⟩ := ht
+      obtain ⟨m', hm'⟩ := h m _ _ hm (by simp)
+      exact ⟨m', hm'⟩
+    | tailCall f targs tenv =>
+      intro m r σ₂ hm hr
+      obtain ⟨m₁, hm₁⟩ := ht m r σ₂ hm hr
+      exact h m₁ _ _ hm₁ hr
+
+structure Refines (n : Nat) : Prop where
+  expr : ∀ {σ ρ e r σ'}, evalExpr n σ ρ e = (r, σ') → NotFuel r →
+    ∃ m r', eval m σ.erase ρ e = (r', σ'.erase) ∧ Agree r r'
+  args : ∀ {σ ρ es r σ'}, evalArgs n σ ρ es = (r, σ') → NotFuel r →
+    ∃ m r', evalList m σ.erase ρ es = (r', σ'.erase) ∧ Agree r r'
+  proc : ∀ {σ p as env r σ'}, applyProcedure n σ p as env = (r, σ') → NotFuel r →
+    ∃ m r', apply m σ.erase p as = (r', σ'.erase) ∧ Agree r r'
+  loop : ∀ {σ p as env r σ'}, applyLoop n σ p as env = (r, σ') → NotFuel r →
+    ∃ m r', apply m σ.erase p as = (r', σ'.erase) ∧ Agree r r'
+  scheme : ∀ {σ lam cenv as rt σ₁}, applyScheme n σ lam cenv as = (rt, σ₁) → NotFuel rt →
+    arityOk lam.formals.fixed.length lam.formals.rest.isSome as.length = true →
+    TailOK (fun m => apply m σ.erase (.closure lam cenv) as) rt σ₁
+  defs : ∀ {σ ρ ds r σ'}, Eval.evalDefs n σ ρ ds = (r, σ') → NotFuel r →
+    ∃ m r', evalDefs m σ.erase ρ ds = (r', σ'.erase) ∧ Agree r r'
+  body : ∀ {σ ρ es rt σ₁}, evalBody n σ ρ es = (rt, σ₁) → NotFuel rt →
+    TailOK (fun m => evalSeq m σ.erase ρ es) rt σ₁
+  tail : ∀ {σ ρ e rt σ₁}, evalTail n σ ρ e = (rt, σ₁) → NotFuel rt →
+    TailOK (fun m => eval m σ.erase ρ e) rt σ₁
+
+section
+variable {n : Nat} (ih : Refines n)
+include ih
+
+theorem Refines.expr_ok {σ ρ e v σ'} (h : evalExpr n σ ρ e = (.ok v, σ')) :
+    ∃ m, eval m σ.erase ρ e = (.ok v, σ'.erase) := by
+  obtain ⟨m, r', hm, ha⟩ := ih.expr h (by simp)
+  rw [Agree.ok_iff.mp ha] at hm; exact ⟨m, hm⟩
+theorem Refines.expr_err {σ ρ e er σ'} (h : evalExpr n σ ρ e = (.error er, σ')) (hr : NotFuel (.error er : Except SErr Value)) :
+    ∃ m er', eval m σ.erase ρ e = (.error er', σ'.erase) ∧ AgreeErr er er' := by
+  obtain ⟨m, r', hm, ha⟩ := ih.expr h hr
+  obtain ⟨e', rfl, he⟩ := Agree.error_iff.mp ha
+  exact ⟨m, e', hm, he⟩
+theorem Refines.args_ok {σ ρ es vs σ'} (h : evalArgs n σ ρ es = (.ok vs, σ')) :
+    ∃ m, evalList m σ.erase ρ es = (.ok vs, σ'.erase) := by
+  obtain ⟨m, r', hm, ha⟩ := ih.args h (by simp)
+  rw [Agree.ok_iff.mp ha] at hm; exact ⟨m, hm⟩
+theorem Refines.args_err {σ ρ es er σ'} (h : evalArgs n σ ρ es = (.error er, σ')) (hr : NotFuel (.error er : Except SErr (List Value))) :
+    ∃ m er', evalList m σ.erase ρ es = (.error er', σ'.erase) ∧ AgreeErr er er' := by
+  obtain ⟨m, r', hm, ha⟩ := ih.args h hr
+  obtain ⟨e', rfl, he⟩ := Agree.error_iff.mp ha
+  exact ⟨m, e', hm, he⟩
+theorem Refines.defs_ok {σ ρ ds σ'} (h : Eval.evalDefs n σ ρ ds = (.ok (), σ')) :
+    ∃ m, evalDefs m σ.erase ρ ds = (.ok (), σ'.erase) := by
+  obtain ⟨m, r', hm, ha⟩ := ih.defs h (by simp)
+  rw [Agree.ok_iff.mp ha] at hm; exact ⟨m, hm⟩
+theorem Refines.defs_err {σ ρ ds er σ'} (h : Eval.evalDefs n σ ρ ds = (.error er, σ')) (hr : NotFuel (.error er : Except SErr Unit)) :
+    ∃ m er', evalDefs m σ.erase ρ ds = (.error er', σ'.erase) ∧ AgreeErr er er' := by
+  obtain ⟨m, r', hm, ha⟩ := ih.defs h hr
+  obtain ⟨e', rfl, he⟩ := Agree.error_iff.mp ha
+  exact ⟨m, e', hm, he⟩
+
+theorem refines_expr {σ ρ e r σ'} (h : evalExpr (n+1) σ ρ e = (r, σ')) (hr : NotFuel r) :
+    ∃ m r', eval m σ.erase ρ e = (r', σ'.erase) ∧ Agree r r' := by
+  cases e with
+  | prim p l =>
+    rw [evalExpr] at h
+    refine ⟨1, r, ?_, Agree.refl _⟩
+    rw [eval]; cases hp : evalPrim p <;> simp only [hp] at h ⊢ <;> cases h <;> rfl
+  | datum d l =>
+    rw [evalExpr] at h
+    refine ⟨1, r, ?_, Agree.refl _⟩
+    rw [eval, readLiteral_erase, h]; rfl
+  | quote d l =>
+    rw [evalExpr] at h
+    refine ⟨1, r, ?_, Agree.refl _⟩
+    rw [eval, readLiteral_erase, h]; rfl
+  | lambda lam l =>
+    rw [evalExpr] at h; cases h
+    exact ⟨1, _, by rw [eval], Agree.refl _⟩
+  | sym s l =>
+    rw [evalExpr] at h
+    refine ⟨1, r, ?_, Agree.refl _⟩
+    rw [eval, Store.erase_lookup]; cases hl : σ.lookup ρ s <;> simp only [hl] at h ⊢ <;> cases h <;> rfl
+  | assign name ve l =>
+    rw [evalExpr] at h
+    split at h
+    next er σ1 heq =>
+      cases h
+      obtain ⟨m, er', hm, ha⟩ := ih.expr_err heq hr
+      exact ⟨m+1, .error er', by rw [eval, hm], ha⟩
+    next v σ1 heq =>
+      obtain ⟨m, hm⟩ := ih.expr_ok heq
+      refine ⟨m+1, r, ?_, Agree.refl _⟩
+      rw [eval, hm]; simp only [Store.erase_set]
+      split at h <;> rename_i hs <;> cases h <;> simp [hs]
+  | cond t c a l =>
+    rw [evalExpr] at h
+    split at h
+    next er σ1 heq =>
+      cases h
+      obtain ⟨m, er', hm, ha⟩ := ih.expr_err heq hr
+      exact ⟨m+1, .error er', by rw [eval, hm], ha⟩
+    next tv σ1 heq =>
+      obtain ⟨m₁, hm₁⟩ := ih.expr_ok heq
+      split at h
+      next htv =>
+        obtain ⟨m₂, r', hm₂, ha⟩ := ih.expr h hr
+        refine ⟨max m₁ m₂ + 1, r', ?_, ha⟩
+        rw [eval, eval_mono_le hm₁ (by simp) (Nat.le_max_left ..)]
+        simp only [htv, if_true]
+        exact eval_mono_le hm₂ (ha.notFuel hr) (Nat.le_max_right ..)
+      next htv =>
+        split at h
+        next alt =>
+          obtain ⟨m₂, r', hm₂, ha⟩ := ih.expr h hr
+          refine ⟨max m₁ m₂ + 1, r', ?_, ha⟩
+          rw [eval, eval_mono_le hm₁ (by simp) (Nat.le_max_left ..)]
+          simp only [htv]
+          exact eval_mono_le hm₂ (ha.notFuel hr) (Nat.le_max_right ..)
+        next =>
+          cases h
+          refine ⟨m₁ + 1, _, ?_, Agree.refl _⟩
+          rw [eval, hm₁]; simp [htv]
+  | call f args l =>
+    rw [evalExpr] at h
+    split at h
+    next er σ1 heq =>
+      cases h
+      obtain ⟨m, er', hm, ha⟩ := ih.expr_err heq hr
+      exact ⟨m+1, .error er', by rw [eval, hm], ha⟩
+    next fv σ1 heq =>
+      obtain ⟨m₁, hm₁⟩ := ih.expr_ok heq
+      split at h
+      next ra σ2 hargs =>
+        cases hpa : procArity fv with
+        | none =>
+          simp only [hpa] at h
+          split at h
+          · cases h; simp at hr
+          next hnf =>
+            cases h
+            have hra : NotFuel ra := by
+              cases ra with
+              | ok _ => simp
+              | error e =>
+                obtain ⟨e, l⟩ := e
+                by_cases he : e = .fuel
+                · subst he; exact absurd rfl (hnf l)
+                · exact .error_of he
+            obtain ⟨m₂, ra', hm₂, ha⟩ := ih.args hargs hra
+            refine ⟨max m₁ m₂ + 1, _, ?_, Agree.refl _⟩
+            rw [eval, eval_mono_le hm₁ (by simp) (Nat.le_max_left ..)]
+            simp only
+            rw [evalList_mono_le hm₂ (ha.notFuel hra) (Nat.le_max_right ..)]
+            simp only [hpa]
+            have := ha.notFuel hra
+            split
+            · simp at this
+            · rfl
+        | some ar =>
+          simp only [hpa] at h
+          split at h
+          next er =>
+            cases h
+            obtain ⟨m₂, er', hm₂, ha⟩ := ih.args_err hargs hr.cast
+            refine ⟨max m₁ m₂ + 1, .error er', ?_, ha⟩
+            rw [eval, eval_mono_le hm₁ (by simp) (Nat.le_max_left ..)]
+            simp only
+            rw [evalList_mono_le hm₂ (ha.notFuel (α := Value) hr) (Nat.le_max_right ..)]
+            simp only [hpa]
+          next vs =>
+            obtain ⟨m₂, hm₂⟩ := ih.args_ok hargs
+            obtain ⟨m₃, r', hm₃, ha⟩ := ih.proc h hr
+            refine ⟨max m₁ (max m₂ m₃) + 1, r', ?_, ha⟩
+            rw [eval, eval_mono_le hm₁ (by simp) (Nat.le_max_left ..)]
+            simp only
+            rw [evalList_mono_le hm₂ (by simp) (by omega)]
+            simp only [hpa]
+            exact apply_mono_le hm₃ (ha.notFuel hr) (by omega)
+
+theorem refines_args {σ ρ es r σ'} (h : evalArgs (n+1) σ ρ es = (r, σ')) (hr : NotFuel r) :
+    ∃ m r', evalList m σ.erase ρ es = (r', σ'.erase) ∧ Agree r r' := by
+  cases es with
+  | nil => rw [evalArgs] at h; cases h; exact ⟨1, _, by rw [evalList], Agree.refl _⟩
+  | cons a as =>
+    rw [evalArgs] at h
+    split at h
+    next er σ1 heq =>
+      cases h
+      obtain ⟨m, er', hm, ha⟩ := ih.expr_err heq hr.cast
+      exact ⟨m+1, .error er', by rw [evalList, hm], ha⟩
+    next v σ1 heq =>
+      obtain ⟨m₁, hm₁⟩ := ih.expr_ok heq
+      split at h
+      next er σ2 heq2 =>
+        cases h
+        obtain ⟨m₂, er', hm₂, ha⟩ := ih.args_err heq2 hr
+        refine ⟨max m₁ m₂ + 1, .error er', ?_, ha⟩
+        rw [evalList, eval_mono_le hm₁ (by simp) (Nat.le_max_left ..)]
+        simp only
+        rw [evalList_mono_le hm₂ (ha.notFuel hr) (Nat.le_max_right ..)]
+      next vs σ2 heq2 =>
+        cases h
+        obtain ⟨m₂, hm₂⟩ := ih.args_ok heq2
+        refine ⟨max m₁ m₂ + 1, _, ?_, Agree.refl _⟩
+        rw [evalList, eval_mono_le hm₁ (by simp) (Nat.le_max_left ..)]
+        simp only
+        rw [evalList_mono_le hm₂ (by simp) (Nat.le_max_right ..)]
+
+theorem refines_proc {σ p as env r σ'} (h : applyProcedure (n+1) σ p as env = (r, σ')) (hr : NotFuel r) :
+    ∃ m r', apply m σ.erase p as = (r', σ'.erase) ∧ Agree r r' := by
+  rw [applyProcedure] at h
+  split at h
+  next r1 σ1 heq =>
+    cases h
+    obtain ⟨m, r', hm, ha⟩ := ih.loop heq hr
+    exact ⟨m, r', by simpa using hm, ha⟩
+
+theorem refines_defs {σ ρ ds r σ'} (h : Eval.evalDefs (n+1) σ ρ ds = (r, σ')) (hr : NotFuel r) :
+    ∃ m r', evalDefs m σ.erase ρ ds = (r', σ'.erase) ∧ Agree r r' := by
+  cases ds with
+  | nil => rw [Eval.evalDefs] at h; cases h; exact ⟨1, _, by rw [evalDefs], Agree.refl _⟩
+  | cons d ds =>
+    obtain ⟨x, e, l⟩ := d
+    rw [Eval.evalDefs] at h
+    split at h
+    next er σ1 heq =>
+      cases h
+      obtain ⟨m, er', hm, ha⟩ := ih.expr_err heq hr.cast
+      exact ⟨m+1, .error er', by rw [evalDefs, hm], ha⟩
+    next v σ1 heq =>
+      obtain ⟨m₁, hm₁⟩ := ih.expr_ok heq
+      obtain ⟨m₂, r', hm₂, ha⟩ := ih.defs h hr
+      refine ⟨max m₁ m₂ + 1, r', ?_, ha⟩
+      rw [evalDefs, eval_mono_le hm₁ (by simp) (Nat.le_max_left ..)]
+      simp only
+      rw [← Store.erase_define]
+      exact evalDefs_mono_le hm₂ (ha.notFuel hr) (Nat.le_max_right ..)
+
+theorem refines_tail {σ ρ e rt σ₁} (h : evalTail (n+1) σ ρ e = (rt, σ₁)) (hr : NotFuel rt) :
+    TailOK (fun m => eval m σ.erase ρ e) rt σ₁ := by
+  unfold evalTail at h
+  split at h
+  next f args l =>
+    cases h
+    intro m r σ₂ hm _
+    exact ⟨m, (eval_call_loc m _ _ f args l none).trans hm⟩
+  next t c a l =>
+    split at h
+    next er σ1 heq =>
+      cases h
+      obtain ⟨m, er', hm, ha⟩ := ih.expr_err heq hr.cast
+      exact ⟨m+1, er', by show eval (m+1) _ _ _ = _; rw [eval, hm], ha⟩
+    next tv σ1 heq =>
+      obtain ⟨m₁, hm₁⟩ := ih.expr_ok heq
+      split at h
+      next htv =>
+        refine TailOK.lift hr ?_ (ih.tail h hr)
+        intro m r s hm hnf
+        refine ⟨max m₁ m + 1, ?_⟩
+        show eval (max m₁ m + 1) _ _ _ = _
+        rw [eval, eval_mono_le hm₁ (by simp) (Nat.le_max_left ..)]
+        simp only [htv, if_true]
+        exact eval_mono_le hm hnf (Nat.le_max_right ..)
+      next htv =>
+        split at h
+        next alt =>
+          refine TailOK.lift hr ?_ (ih.tail h hr)
+          intro m r s hm hnf
+          refine ⟨max m₁ m + 1, ?_⟩
+          show eval (max m₁ m + 1) _ _ _ = _
+          rw [eval, eval_mono_le hm₁ (by simp) (Nat.le_max_left ..)]
+          simp only [htv]
+          exact eval_mono_le hm hnf (Nat.le_max_right ..)
+        next =>
+          cases h
+          refine ⟨m₁ + 1, ?_⟩
+          show eval (m₁ + 1) _ _ _ = _
+          rw [eval, hm₁]; simp [htv]
+  next hcall hcond =>
+    split at h
+    next er σ1 heq =>
+      cases h
+      obtain ⟨m, er', hm, ha⟩ := ih.expr_err heq hr.cast
+      exact ⟨m, er', hm, ha⟩
+    next v σ1 heq =>
+      cases h
+      obtain ⟨m, hm⟩ := ih.expr_ok heq
+      exact ⟨m, hm⟩
+
+theorem refines_body {σ ρ es rt σ₁} (h : evalBody (n+1) σ ρ es = (rt, σ₁)) (hr : NotFuel rt) :
+    TailOK (fun m => evalSeq m σ.erase ρ es) rt σ₁ := by
+  match es with
+  | [] =>
+    rw [evalBody] at h; cases h
+    exact ⟨1, _, by show evalSeq 1 _ _ _ = _; rw [evalSeq], AgreeErr.refl _⟩
+  | [last] =>
+    rw [evalBody] at h
+    refine TailOK.lift hr ?_ (ih.tail h hr)
+    intro m r s hm _
+    exact ⟨m+1, by show evalSeq (m+1) _ _ _ = _; rw [evalSeq]; exact hm⟩
+  | e :: e2 :: es =>
+    rw [evalBody] at h
+    · split at h
+      next er σ1 heq =>
+        cases h
+        obtain ⟨m, er', hm, ha⟩ := ih.expr_err heq hr.cast
+        refine ⟨m+1, er', ?_, ha⟩
+        show evalSeq (m+1) _ _ _ = _
+        rw [evalSeq, hm]; simp
+      next v σ1 heq =>
+        obtain ⟨m₁, hm₁⟩ := ih.expr_ok heq
+        refine TailOK.lift hr ?_ (ih.body h hr)
+        intro m r s hm hnf
+        refine ⟨max m₁ m + 1, ?_⟩
+        show evalSeq (max m₁ m + 1) _ _ _ = _
+        rw [evalSeq, eval_mono_le hm₁ (by simp) (Nat.le_max_left ..)]
+        · exact evalSeq_mono_le hm hnf (Nat.le_max_right ..)
+        · simp
+    · simp
+end
+
+/-- one unfolding of the reference application of a closure whose arity test passes -/
+theorem apply_closure_succ (m : Nat) (σ : Store) (lam : Lambda) (cenv : Nat) (as : List Value)
+    (ha : arityOk lam.formals.fixed.length lam.formals.rest.isSome as.length = true) :
+    apply (m+1) σ (.closure lam cenv) as =
+      match bindFixed (σ.newFrame (some cenv)).2 (σ.newFrame (some cenv)).1 lam.formals.fixed as with
+      | (.error er, σ₁) => (.error (er, none), σ₁)
+      | (.ok restArgs, σ₁) =>
+        match evalDefs m (bindRest σ₁ (σ.newFrame (some cenv)).1 lam.formals.rest restArgs)
+            (σ.newFrame (some cenv)).1 lam.defs with
+        | (.error er, σ₂) => (.error er, σ₂)
+        | (.ok (), σ₂) => evalSeq m σ₂ (σ.newFrame (some cenv)).1 lam.body := by
+  rw [apply]; simp only [procArity, ha]; rfl
+
+section
+variable {n : Nat} (ih : Refines n)
+include ih
+
+theorem refines_scheme {σ lam cenv as rt σ₁} (h : applyScheme (n+1) σ lam cenv as = (rt, σ₁)) (hr : NotFuel rt)
+    (ha : arityOk lam.formals.fixed.length lam.formals.rest.isSome as.length = true) :
+    TailOK (fun m => apply m σ.erase (.closure lam cenv) as) rt σ₁ := by
+  rw [applyScheme_succ] at h
+  have e1 : (σ.erase.newFrame (some cenv)).2 = (σ.newFrame (some cenv)).2.erase := rfl
+  have e2 : (σ.erase.newFrame (some cenv)).1 = (σ.newFrame (some cenv)).1 := rfl
+  split at h
+  next er σ1 hb =>
+    cases h
+    refine ⟨1, _, ?_, AgreeErr.refl _⟩
+    show apply 1 _ _ _ = _
+    rw [apply_closure_succ _ _ _ _ _ ha, e1, e2, bindFixed_erase, hb]
+  next restArgs σ1 hb =>
+    split at h
+    next er σ2 hd =>
+      cases h
+      obtain ⟨m, er', hm, hag⟩ := ih.defs_err hd hr.cast
+      refine ⟨m+1, er', ?_, hag⟩
+      show apply (m+1) _ _ _ = _
+      rw [apply_closure_succ _ _ _ _ _ ha, e1, e2, bindFixed_erase, hb]
+      simp only
+      rw [← bindRest_erase, hm]
+    next σ2 hd =>
+      obtain ⟨m₁, hm₁⟩ := ih.defs_ok hd
+      refine TailOK.lift hr ?_ (ih.body h hr)
+      intro m r s hm hnf
+      refine ⟨max m₁ m + 1, ?_⟩
+      show apply (max m₁ m + 1) _ _ _ = _
+      rw [apply_closure_succ _ _ _ _ _ ha, e1, e2, bindFixed_erase, hb]
+      simp only
+      rw [← bindRest_erase, evalDefs_mono_le hm₁ (by simp) (Nat.le_max_left ..)]
+      exact evalSeq_mono_le hm hnf (Nat.le_max_right ..)
+
+theorem refines_loop {σ p as env r σ'} (h : applyLoop (n+1) σ p as env = (r, σ')) (hr : NotFuel r) :
+    ∃ m r', apply m σ.erase p as = (r', σ'.erase) ∧ Agree r r' := by
+  unfold applyLoop at h
+  split at h
+  next hpa =>
+    cases h
+    exact ⟨1, .error (.nonProcedure, none), by unfold apply; simp only [hpa], .inr ⟨none, rfl⟩⟩
+  next fixed variadic hpa =>
+    split at h
+    next har =>
+      cases h
+      exact ⟨1, _, by unfold apply; simp only [hpa, har]; rfl, Agree.refl _⟩
+    next har =>
+      split at h
+      · -- apply
+        split at h
+        next er hsp =>
+          cases h
+          refine ⟨1, _, ?_, Agree.refl _⟩
+          rw [apply]; simp only [hpa, har, hsp]; rfl
+        next f args' hsp =>
+          obtain ⟨m, r', hm, hag⟩ := ih.loop h hr
+          refine ⟨m+1, r', ?_, hag⟩
+          rw [apply]; simp only [hpa, har, hsp]; exact hm
+      next b hb =>
+        refine ⟨1, r, ?_, Agree.refl _⟩
+        rw [apply]
+        · simp only [hpa, har]
+          simp only [applyPure_erase, h]; rfl
+        · exact hb
+      next lam cenv =>
+        have ha : arityOk lam.formals.fixed.length lam.formals.rest.isSome as.length = true := by
+          simp only [procArity, Option.some.injEq, Prod.mk.injEq] at hpa
+          obtain ⟨rfl, rfl⟩ := hpa
+          simpa using har
+        split at h
+        next er σ1 hs =>
+          cases h
+          obtain ⟨m, er', hm, hag⟩ := ih.scheme hs hr.cast ha
+          exact ⟨m, .error er', hm, hag⟩
+        next v σ1 hs =>
+          cases h
+          obtain ⟨m, hm⟩ := ih.scheme hs (by simp) ha
+          exact ⟨m, _, hm, Agree.refl _⟩
+        next f targs tenv σ1 hs =>
+          have hT := ih.scheme hs (by simp) ha
+          split at h
+          next er σ2 hf =>
+            cases h
+            obtain ⟨m, er', hm, hag⟩ := ih.expr_err hf hr
+            obtain ⟨m', hm'⟩ := hT (m+1) (.error er') σ'.erase (by rw [eval, hm]) (hag.notFuel hr)
+            exact ⟨m', .error er', hm', hag⟩
+          next fv σ2 hf =>
+            obtain ⟨m₁, hm₁⟩ := ih.expr_ok hf
+            split at h
+            next er σ3 hargs =>
+              cases h
+              obtain ⟨m₂, er', hm₂, hag⟩ := ih.args_err hargs hr.cast
+              have hnf' : NotFuel (.error er' : Except SErr (List Value)) := hag.notFuel (α := Value) hr
+              cases hpf : procArity fv with
+              | none =>
+                obtain ⟨m', hm'⟩ := hT (max m₁ m₂ + 1) (.error (.nonProcedure, f.loc)) σ'.erase (by
+                  rw [eval, eval_mono_le hm₁ (by simp) (Nat.le_max_left ..)]
+                  simp only
+                  rw [evalList_mono_le hm₂ hnf' (Nat.le_max_right ..)]
+                  simp only [hpf]
+                  split
+                  next heq => cases heq; simp at hnf'
+                  · rfl) (.error_of (by simp))
+                exact ⟨m', .error (.nonProcedure, f.loc), hm', .inr ⟨_, rfl⟩⟩
+              | some ar =>
+                obtain ⟨m', hm'⟩ := hT (max m₁ m₂ + 1) (.error er') σ'.erase (by
+                  rw [eval, eval_mono_le hm₁ (by simp) (Nat.le_max_left ..)]
+                  simp only
+                  rw [evalList_mono_le hm₂ hnf' (Nat.le_max_right ..)]
+                  simp only [hpf]) hnf'.cast
+                exact ⟨m', .error er', hm', hag⟩
+            next vs σ3 hargs =>
+              obtain ⟨m₂, hm₂⟩ := ih.args_ok hargs
+              split at h
+              next hpf =>
+                cases h
+                obtain ⟨m', hm'⟩ := hT (max m₁ m₂ + 1) (.error (.nonProcedure, f.loc)) σ'.erase (by
+                  rw [eval, eval_mono_le hm₁ (by simp) (Nat.le_max_left ..)]
+                  simp only
+                  rw [evalList_mono_le hm₂ (by simp) (Nat.le_max_right ..)]
+                  simp only [hpf]) (.error_of (by simp))
+                exact ⟨m', .error (.nonProcedure, f.loc), hm', .inr ⟨_, rfl⟩⟩
+              next ar hpf =>
+                obtain ⟨m₃, r', hm₃, hag⟩ := ih.loop h hr
+                obtain ⟨m', hm'⟩ := hT (max m₁ (max m₂ m₃) + 1) r' σ'.erase (by
+                  rw [eval, eval_mono_le hm₁ (by simp) (Nat.le_max_left ..)]
+                  simp only
+                  rw [evalList_mono_le hm₂ (by simp) (by omega)]
+                  simp only [hpf]
+                  exact apply_mono_le hm₃ (hag.notFuel hr) (by omega)) (hag.notFuel hr)
+                exact ⟨m', _, hm', hag⟩
+      next h1 h2 h3 =>
+        exfalso
+        cases p <;> simp [procArity] at hpa
+        · exact h3 _ _ rfl
+        · exact h2 _ rfl
+end
+
+theorem refines_all : ∀ n, Refines n
+  | 0 => by
+    constructor
+    · intro σ ρ e r σ' h hr; rw [evalExpr] at h; cases h; simp at hr
+    · intro σ ρ e r σ' h hr; rw [evalArgs] at h; cases h; simp at hr
+    · intro σ p as env r σ' h hr; rw [applyProcedure] at h; cases h; simp at hr
+    · intro σ p as env r σ' h hr; rw [applyLoop] at h; cases h; simp at hr
+    · intro σ lam cenv as rt σ₁ h hr; rw [applyScheme] at h; cases h; simp at hr
+    · intro σ ρ ds r σ' h hr; rw [Eval.evalDefs] at h; cases h; simp at hr
+    · intro σ ρ es rt σ₁ h hr; rw [evalBody] at h; cases h; simp at hr
+    · intro σ ρ e rt σ₁ h hr; rw [evalTail] at h; cases h; simp at hr
+  | n+1 =>
+    have ih := refines_all n
+    ⟨refines_expr ih, refines_args ih, refines_proc ih, refines_loop ih, refines_scheme ih, refines_defs ih,
+      refines_body ih, refines_tail ih⟩
+
+end Ruschm.Ref
